@@ -337,10 +337,14 @@ def writeCalled {V E : Type} (o : Oracle V E) (raw : V) (checksOk : Bool) (w : W
   | .ok _, .absent => false
   | .ok _, _ => checksOk
 
-/-- all calls of the funnel one call of the write wrapper makes: the assignments of the body of `write_<p>` (they are
-announced also when the method raises afterwards), then the value the wrapper announces -/
+/-- the assignments made by the body of `write_<p>` (they are announced also when the method raises afterwards) -/
+def writeInner {V E : Type} (o : Oracle V E) (raw : V) (checksOk : Bool) (inner : List V) (w : WriteRes V) : List (Ev V E) :=
+  if writeCalled o raw checksOk w then innerEvs inner else []
+
+/-- all calls of the funnel one call of the write wrapper makes: the assignments of the body of `write_<p>`, then the
+value the wrapper announces -/
 def writeEvs {V E : Type} (o : Oracle V E) (raw : V) (checksOk : Bool) (inner : List V) (w : WriteRes V) : List (Ev V E) :=
-  (if writeCalled o raw checksOk w then innerEvs inner else []) ++ (writeEv o raw checksOk w).toList
+  writeInner o raw checksOk inner w ++ (writeEv o raw checksOk w).toList
 
 /-- what `Dispatcher._setParameterValue` (dispatcher.py:156-182) needs to know about a `change` request -/
 structure ChangeReq (V : Type) where
